@@ -75,16 +75,22 @@ Proof.
       * eauto.
 Qed.
 
-(* repeated().configure(|cfg, ctx| cfg.exactly(n)) is repeated().exactly(n) *)
-Lemma configure_is_static a lo hi n ctx : forall fuel c lim sacc sacce p r,
-  sdrive fuel (IRepCfg a lo hi) ctx (SCfg c n (Some n)) lim sacc sacce p r
-  = sdrive fuel (IRep a n (Some n)) ctx (SCount c) lim sacc sacce p r.
+(* a configured repetition behaves exactly as the statically bounded one with the bounds in force:
+   what the closure sets overrides, what it leaves alone falls back to the static bound *)
+Lemma configure_is_static a lo hi ck clo chi ctx : forall fuel c lim sacc sacce p r,
+  sdrive fuel (IRepCfg a lo hi ck) ctx (SCfg c clo chi) lim sacc sacce p r
+  = sdrive fuel (IRep a clo chi) ctx (SCount c) lim sacc sacce p r.
 Proof.
   induction fuel as [|fuel IH]; intros; cbn [Sem.sdrive it_snext]; [reflexivity|].
   destruct lim as [[|l]|]; try reflexivity;
-    destruct (rep_snext run a n (Some n) ctx c p r) as [[[x c'] r1]|]; try reflexivity;
+    destruct (rep_snext run a clo chi ctx c p r) as [[[x c'] r1]|]; try reflexivity;
     destruct x; try reflexivity; apply IH.
 Qed.
+
+Lemma configured_bounds a lo hi ck ctx :
+  mk_iter (IRepCfg a lo hi ck) ctx
+  = SCfg 0 (cfg_lo ck lo (val_count (cval ctx))) (cfg_hi ck hi (val_count (cval ctx))).
+Proof. reflexivity. Qed.
 
 (* enumerate pairs the i-th item (in input order) with i *)
 Fixpoint indexed (items : list sitem) (n : nat) : Prop :=
